@@ -40,6 +40,7 @@ pub struct PointCloudReaderSimple<'a, T: Read + Seek> {
     values: Vec<RecordValue>,       // Reusable buffer for a set of raw values for a single point
     points: VecDeque<Point>,        // Queue with finished points ready for reading
     buffer: Vec<Point>,             // Reusable buffer for extracting new points
+    error: Option<Error>,           // Error to be returned after the points that were read before it
     intensity_range: Option<Range>, // Intensity range for normalization
     red_range: Option<Range>,       // Red color range for normalization
     green_range: Option<Range>,     // Green color range for normalization
@@ -65,6 +66,7 @@ impl<'a, T: Read + Seek> PointCloudReaderSimple<'a, T> {
             values: Vec::with_capacity(pc.prototype.len()),
             points: VecDeque::new(),
             buffer: Vec::new(),
+            error: None,
             intensity_range: Range::intensity_from_pointcloud(pc)?,
             red_range: Range::red_from_pointcloud(pc)?,
             green_range: Range::green_from_pointcloud(pc)?,
@@ -364,6 +366,11 @@ impl<T: Read + Seek> Iterator for PointCloudReaderSimple<'_, T> {
             return Some(Ok(point));
         }
 
+        // Report a delayed error after all the points in front of it were returned
+        if let Some(err) = self.error.take() {
+            return Some(Err(err));
+        }
+
         // Refill queues with raw point values.
         // A single packet might not be enough to complete the next point!
         while self.queue_reader.available() < 1 {
@@ -376,11 +383,14 @@ impl<T: Read + Seek> Iterator for PointCloudReaderSimple<'_, T> {
         let available = self.queue_reader.available();
         self.buffer.reserve(available);
         for _ in 0..available {
-            let p = match self.pop_point() {
-                Ok(p) => p,
-                Err(err) => return Some(Err(err)),
+            match self.pop_point() {
+                Ok(p) => self.buffer.push(p),
+                Err(err) => {
+                    // The points in front of the broken point are still valid and must be returned first
+                    self.error = Some(err);
+                    break;
+                }
             };
-            self.buffer.push(p);
         }
 
         // Post-processing of the points in the buffer
@@ -406,7 +416,7 @@ impl<T: Read + Seek> Iterator for PointCloudReaderSimple<'_, T> {
         }
 
         // Move points from buffer to output queue
-        self.points.reserve(available);
+        self.points.reserve(self.buffer.len());
         for p in self.buffer.drain(..) {
             self.points.push_back(p);
         }
@@ -415,6 +425,8 @@ impl<T: Read + Seek> Iterator for PointCloudReaderSimple<'_, T> {
         if let Some(point) = self.points.pop_front() {
             self.read += 1;
             Some(Ok(point))
+        } else if let Some(err) = self.error.take() {
+            Some(Err(err))
         } else {
             Some(Error::internal(
                 "Cannot read next point because of logic error",
